@@ -402,6 +402,10 @@ def do_part(test, ph, part):
         time.sleep(part["sleep"])      # really takes that long (layers of a -j run finish in another order)
     if part.get("fd2"):
         os.write(2, part["fd2"].encode("latin-1"))
+    if part.get("droppath"):
+        # import isolation: the test filters the directory of the tests out of sys.path and does not put it back
+        here_ = os.path.dirname(os.path.abspath(__file__))
+        sys.path[:] = [p_ for p_ in sys.path if not (isinstance(p_, str) and os.path.abspath(p_) == here_)]
     if part.get("chdir"):
         import tempfile
         os.chdir(tempfile.gettempdir())
@@ -641,7 +645,17 @@ def build_suite(node):
         if node.get("lvl") is not None:
             holder.level = node["lvl"]
         return t
-    s = unittest.TestSuite([build_suite(k) for k in node["kids"]])
+    kids_ = [build_suite(k) for k in node["kids"]]
+    if (node.get("lyr") is not None or node.get("lvl") is not None) and len(node["kids"]) % 2 == 1:
+        # the declaration sits on a TestSuite subclass (class SlowDbSuite(unittest.TestSuite): layer = ...; level = ...)
+        # rather than on the suite object: a declaration all the same
+        ns_ = {}
+        if node.get("lyr") is not None:
+            ns_["layer"] = layer_decl(node)
+        if node.get("lvl") is not None:
+            ns_["level"] = node["lvl"]
+        return type("DeclaringSuite", (unittest.TestSuite,), ns_)(kids_)
+    s = unittest.TestSuite(kids_)
     if node.get("lyr") is not None:
         s.layer = layer_decl(node)
     if node.get("lvl") is not None:
